@@ -102,11 +102,11 @@ Definition s_laguer (a_ : (list (T CA))) (x_ : (T CA)) (iterations_ : nat) : res
                let x1_ := (sub x_ dx_) in
                if (eqb x_ x1_)
                then (Ok (inr (a_, x_, iterations_)))
-               else (let* x_ := if (negb ((Nat.modulo iter_ 10) =? 0)%nat)
-                        then (let x_ := x1_ in
-                             Ok x_)
-                        else (let* x12 := rd (rfrac RA) (Nat.div iter_ 10) in
+               else (let* x_ := if ((Nat.modulo iter_ 10) =? 0)%nat
+                        then (let* x12 := rd (rfrac RA) (Nat.div iter_ 10) in
                              let x_ := (sub x_ (kmulr RA dx_ x12)) in
+                             Ok x_)
+                        else (let x_ := x1_ in
                              Ok x_) in
                     Ok (inl (x_, iterations_))))) (x_, iterations_) in
   match o14 with
